@@ -15,7 +15,7 @@ import (
 
 func c11Opts(r *mon.RNG, i int) *gram.GenOpts {
 	prof := []int{gram.ProfStateful, gram.ProfStateful, gram.ProfDefault, gram.ProfLower, gram.ProfScanCfg}[i%5]
-	o := &gram.GenOpts{Profile: prof, MaxProds: 5, Budget: 14 + r.Intn(12) + (i/90)*6, Depth: 2 + r.Intn(3) + i/150, TokKinds: false, Unions: true,
+	o := &gram.GenOpts{Profile: prof, MaxProds: 5, Budget: 14 + r.Intn(12) + (i/90)*6, Depth: 2 + r.Intn(3) + i/150, TokKinds: i%4 == 3, TokMulti: i%4 == 3, Unions: true,
 		SharePrefix: 7, CaptureBias: 3, SubBias: 7, AllowBang: false, ForcePos: true, NamesElided: i%9 == 8}
 	if o.NamesElided {
 		o.Profile = gram.ProfStateful // only this profile has elided token types a grammar can name
